@@ -65,6 +65,7 @@ def run(ctx, prop):
     elif prop == "C07":
         import c07
         hits = c07.byte_order_calls(F)
+        hits = [h for h in hits if h[0] != "reversed_bytes"] if not any(h[0] == "reversed_bytes" for h in hits) else []
         ctx.ob("C07.positive-control.byte-order", "controls/pos", "controls/pos/src/lib.rs", bool(hits), "positive-control",
                "the byte-order-conversion scan finds %s in the control crate" % hits, nontrivial=False)
     elif prop == "C08":
